@@ -242,4 +242,5 @@ func TestC12(t *testing.T) {
 		n = envInt("VERIF_N", 60000)
 	}
 	forCases(n, 121, "r", func(i int, r *rng, id string) { c12Rt(r, id) })
+	forCases(2*n, 122, "m", func(i int, r *rng, id string) { c12Msgpack(r, id) })
 }
